@@ -2,6 +2,7 @@ package main
 
 import (
 	"fmt"
+	"strings"
 	"sync/atomic"
 
 	"github.com/grindlemire/go-lucene/internal/zsimrt"
@@ -39,6 +40,12 @@ type fingerprint struct {
 	haveFull            bool
 }
 
+type soloRecheck struct {
+	t, i int
+	res  string
+	f    func() string
+}
+
 type world struct {
 	sc      *Scenario
 	shared  []*expr.Expression
@@ -49,6 +56,8 @@ type world struct {
 	steps   [][]uint64
 	viol    [zsimrt.MaxTasks + 1]*Violation // first violation seen by each task (slot MaxTasks: main)
 	limits  [][]uint64
+	recheck [][]func() string // O6: recompute a result's canonical form from the raw returned values
+	soloRe  []soloRecheck
 	fired   [zsimrt.MaxTasks + 1]map[string]int
 	cbCalls [zsimrt.MaxTasks + 1]int
 }
@@ -195,11 +204,13 @@ func (w *world) simOp(t, i int) {
 		res, completed = resSkipUnpub, true
 		return
 	}
-	res = doCall(op, e, func(f func() string) string {
+	var re func() string
+	res, re = doCall(op, e, func(f func() string) string {
 		zsimrt.Quiet(true)
 		defer zsimrt.Quiet(false)
 		return f()
 	})
+	w.recheck[t][i] = re
 	if slot >= 0 {
 		w.checkShared(slot, t, t, i, op.Kind, "after the operation returned")
 	}
@@ -267,12 +278,16 @@ func (w *world) soloOp(t, i int) (res string, steps uint64) {
 			}
 			zsimrt.CountPause(false)
 		}
-		res = doCall(op, e, func(f func() string) string {
+		var re func() string
+		res, re = doCall(op, e, func(f func() string) string {
 			zsimrt.CountPause(true) // canonicalisation is not part of the operation
 			defer zsimrt.CountPause(false)
 			return f()
 		})
 		steps = zsimrt.CountEnd()
+		if re != nil {
+			w.soloRe = append(w.soloRe, soloRecheck{t, i, res, re})
+		}
 		if shared && e != nil {
 			after := takeFP(e, true)
 			if after != before {
@@ -329,10 +344,12 @@ func runScenario(sc *Scenario, r *zsimrt.Rand, replay []zsimrt.Decision) *Outcom
 	w.results = make([][]string, nT)
 	w.steps = make([][]uint64, nT)
 	w.limits = make([][]uint64, nT)
+	w.recheck = make([][]func() string, nT)
 	for t := range sc.Tasks {
 		w.results[t] = make([]string, len(sc.Tasks[t]))
 		w.steps[t] = make([]uint64, len(sc.Tasks[t]))
 		w.limits[t] = make([]uint64, len(sc.Tasks[t]))
+		w.recheck[t] = make([]func() string, len(sc.Tasks[t]))
 	}
 	refA := make([]string, total)
 	refB := make([]string, total)
@@ -346,12 +363,25 @@ func runScenario(sc *Scenario, r *zsimrt.Rand, replay []zsimrt.Decision) *Outcom
 		}
 	}
 
+	// O6 for the solo passes: every raw result kept until the pass is over still
+	// canonicalises to what it did when it was returned
+	soloStable := func() {
+		for _, sr := range w.soloRe {
+			if now := guarded(sr.f); now != sr.res {
+				w.note(soloSlot, &Violation{Oracle: "O6", Task: sr.t, Op: sr.i, Kind: sc.Tasks[sr.t][sr.i].Kind,
+					What: "a value returned by a call made alone changed after later calls (it aliases state the library kept using)",
+					Want: sr.res, Got: now})
+			}
+		}
+		w.soloRe = nil
+	}
 	passA := func() {
 		zsimrt.SetMapSeed(sc.MapSeed*3 + 1) // each pass iterates maps in its own order
 		for f := 0; f < total; f++ {
 			refA[f], soloSteps[f] = w.soloOp(taskOf[f], opOf[f])
 			out.SoloSteps += soloSteps[f]
 		}
+		soloStable()
 	}
 	passB := func() {
 		zsimrt.SetMapSeed(sc.MapSeed*5 + 2)
@@ -368,6 +398,7 @@ func runScenario(sc *Scenario, r *zsimrt.Rand, replay []zsimrt.Decision) *Outcom
 				refB[f], _ = w.soloOp(taskOf[f], opOf[f])
 			}
 		}
+		soloStable()
 	}
 
 	sim := func() {
@@ -450,6 +481,19 @@ func runScenario(sc *Scenario, r *zsimrt.Rand, replay []zsimrt.Decision) *Outcom
 		} else {
 			zsimrt.StepHook = nil
 			zsimrt.RunFree(nT, initial, taskBody) // degraded mode
+		}
+		// O6: every value a task was handed back still canonicalises to what it did then
+		for t := range sc.Tasks {
+			for i, re := range w.recheck[t] {
+				if re == nil || w.results[t][i] == resNotRun || strings.HasPrefix(w.results[t][i], "abort:") || strings.HasPrefix(w.results[t][i], "panic:") || w.results[t][i] == "exit" {
+					continue
+				}
+				if now := guarded(re); now != w.results[t][i] {
+					w.note(soloSlot, &Violation{Oracle: "O6", Task: t, Op: i, Kind: sc.Tasks[t][i].Kind,
+						What: "a value returned to a task changed after the call returned (it aliases state the library kept using)",
+						Want: w.results[t][i], Got: now})
+				}
+			}
 		}
 		// end of run: every shared expression is what it was when it was created
 		for i := range sc.Shared {
